@@ -16,7 +16,8 @@ import (
 
 // loadCase reads a replay unit: a caseFile (JSON) or a native fuzz corpus entry
 // ("go test fuzz v1" + one []byte line; the target comes from the file name
-// TestPropFuzz<Name>__<id>).
+// Fuzz<Name>__<id>; the driver replays such files through the Fuzz function
+// itself, this path serves TestReplayIsolated and committed corpus entries).
 func loadCase(path string) (*target, []byte, caseFile, error) {
 	raw, err := os.ReadFile(path)
 	if err != nil {
